@@ -185,6 +185,14 @@ func addTime(m map[string]Intrinsic) {
 	m["(time.Duration).Milliseconds"] = func(vm *VM, fn *ssa.Function, args []Value) Value {
 		return mkBVBin("bvsdiv", args[0].(*Term), mkBV(64, 1e6))
 	}
+	// d.Truncate(m): d rounded toward zero to a multiple of m; d itself when m <= 0
+	m["(time.Duration).Truncate"] = func(vm *VM, fn *ssa.Function, args []Value) Value {
+		d, mm := args[0].(*Term), args[1].(*Term)
+		if vm.branch(mkBVCmp("bvsle", mm, mkBV(64, 0))) {
+			return d
+		}
+		return mkBVBin("bvsub", d, mkBVBin("bvsrem", d, mm))
+	}
 	m["(time.Duration).Seconds"] = func(vm *VM, fn *ssa.Function, args []Value) Value {
 		d := args[0].(*Term)
 		if d.IsConst() {
